@@ -277,14 +277,11 @@ def crows(rows, is_budget):
         out.append('(@mkRow NN %s %s %s)' % (lb, cf(r.u), cruid(r.uid)))
     return clist(out)
 
-def copts(snap, ns, kw):
-    infl = 'None'
-    if 'influences' in kw:
-        infl = '(Some %s)' % clist([snap.infl(i) for i in eval(kw['influences'], ns)])
+def copts(infl_txt, kw):
     trim = float(eval(kw.get('trim', '0.01')))
     mx = eval(kw.get('max_number', 'None'))
     key = eval(kw.get('key', "'u'"))
-    return '(@mkOpts NN %s %s %s %s %s %s)' % (infl, cf(trim), copt(mx, cz), cbool(eval(kw.get('intermediate', 'False'))),
+    return '(@mkOpts NN %s %s %s %s %s %s)' % (infl_txt, cf(trim), copt(mx, cz), cbool(eval(kw.get('intermediate', 'False'))),
                                           {None: 'None', 'u': '(Some KU)', 'label': '(Some KLabel)'}[key], cbool(eval(kw.get('reverse', 'True'))))
 
 def run_src(src, ctx=7):
@@ -293,13 +290,17 @@ def run_src(src, ctx=7):
     exec('from GTC import *\nfrom GTC import reporting\ninf = float("inf")\n' + '\n'.join(src), ns)
     return ns
 
-def call_src(fn, kw):
-    return 'reporting.%s(y%s)' % (fn, ''.join(', %s=%s' % (k, v) for k, v in sorted(kw.items())))
+def call_src(fn, kw, target='y'):
+    return 'reporting.%s(%s%s)' % (fn, target, ''.join(', %s=%s' % (k, v) for k, v in sorted(kw.items())))
 
-def observe(ns, fn, kw):
-    """('ok', rows) or ('exn', class name)"""
+def observe(ns, fn, kw, target='y'):
+    """('ok', rows) or ('exn', class name); influences=[...] uses the objects evaluated before the first report"""
+    kw2 = dict(kw)
+    if 'influences' in kw2:
+        ns['_infl'] = kw2.pop('influences_obj'); kw2['influences'] = '_infl'
+    kw2.pop('influences_obj', None)
     try:
-        rows = eval(call_src(fn, kw), ns)
+        rows = eval(call_src(fn, kw2, target), ns)
     except Exception as ex:
         import traceback
         if any(fr.name == '__repr__' for fr in traceback.extract_tb(ex.__traceback__)):
@@ -307,21 +308,90 @@ def observe(ns, fn, kw):
         return ('exn', type(ex).__name__)
     return ('ok', rows)
 
-def case_term(m, calls):
-    """run the model's source and the calls on the implementation; returns (Coq term : Z, observations)"""
+def dump_ureal(o):
+    """bit-exact dump of the value and the three component vectors of an uncertain real"""
+    return (float(o.x).hex(),) + tuple(tuple((n.uid, float(x).hex()) for n, x in zip(v._index, v._value))
+                                       for v in (o._u_components, o._d_components, o._i_components))
+
+def watch_list(ns, m):
+    """(name, uncertain real) for every object whose vectors a report could touch"""
+    from GTC import lib
+    out = []
+    def add(name, o):
+        if isinstance(o, lib.UncertainReal): out.append((name, o))
+        elif isinstance(o, lib.UncertainComplex): out.append((name + '.real', o.real)); out.append((name + '.imag', o.imag))
+    for v in ['y', 'ymag'] + list(m['pool']):
+        if v in ns: add(v, ns[v])
+    return out
+
+SEQ_KW = [{'trim': '0'}, {'trim': '0'}, {'trim': '0', 'key': 'None'}, {}, {'trim': '0', 'intermediate': 'True'}]
+
+def sequence_calls(rng, ycomplex):
+    """the report sequence run after the option-grid calls on y: (target, fn, kw)"""
+    seq = []
+    if ycomplex:
+        for t in ('y.real', 'y.imag', 'ymag2'):          # ymag2 = magnitude(y) evaluated AFTER the complex reports
+            seq.append((t, 'budget', {'trim': '0'}))
+            seq.append((t, 'components', {'trim': '0'}))
+            if rng.random() < 0.5: seq.append((t, rng.choice(['budget', 'components']), dict(rng.choice(SEQ_KW))))
+        seq.append(('y', 'budget', {'trim': '0'})); seq.append(('y', 'components', {'trim': '0'}))
+        seq.append((rng.choice(['y.real', 'y.imag']), 'budget', {'trim': '0', 'key': 'None'}))
+    else:
+        seq.append(('y', 'budget', {'trim': '0', 'key': 'None'})); seq.append(('y', 'components', {'trim': '0'}))
+    return seq
+
+def case_term(m, calls, rng=None):
+    """run the model's source and a SEQUENCE of report calls on the implementation: the option-grid calls on y, then
+    (complex y) real reports of y.real, y.imag, magnitude(y), then y again.  Everything the model needs (targets,
+    influences) is snapshotted BEFORE the first report; after every call all component vectors are dumped again and
+    must be bit-identical (reports are reads).  Returns (Coq term : Z, observations, calls as run, vector changes, number of watched objects)"""
+    from GTC import lib, core
+    rng = rng or random.Random(0)
     with record_math() as rec:
         ns = run_src(m['src'])
+        y = ns['y']
+        ycomplex = isinstance(y, lib.UncertainComplex)
+        if ycomplex:
+            try: ns['ymag'] = core.magnitude(y)
+            except Exception: pass
         snap = Snap()
-        ytxt = snap.yval(ns['y'])
-        ctxt = []; obs = []
-        for fn, kw in calls:
-            r = observe(ns, fn, kw)
+        tsnap = {'y': snap.yval(y)}
+        if ycomplex:
+            tsnap['y.real'] = snap.yval(y.real); tsnap['y.imag'] = snap.yval(y.imag)
+            if 'ymag' in ns: tsnap['ymag2'] = snap.yval(ns['ymag'])
+        allcalls = [('y', fn, kw) for fn, kw in calls] + [c for c in sequence_calls(rng, ycomplex) if c[0] in tsnap]
+        # influences: evaluate the expressions and take their snapshots before any report
+        prepared = []
+        for t, fn, kw in allcalls:
+            kw = dict(kw); itxt = 'None'
+            if 'influences' in kw:
+                objs = eval(kw['influences'], ns)
+                kw['influences_obj'] = objs
+                itxt = '(Some %s)' % clist([snap.infl(i) for i in objs])
+            prepared.append((t, fn, kw, itxt))
+        watched = watch_list(ns, m)
+        base = {name: dump_ureal(o) for name, o in watched}
+        ctxt = []; obs = []; changes = []
+        for t, fn, kw, itxt in prepared:
+            if t == 'ymag2' and 'ymag2' not in ns:
+                ns['ymag2'] = core.magnitude(y)
+                d = dump_ureal(ns['ymag2'])
+                if d != base['ymag']:
+                    changes.append({'after': 'earlier reports', 'object': 'magnitude(y) evaluated after the reports', 'before': repr(base['ymag'])[:400], 'now': repr(d)[:400]})
+            r = observe(ns, fn, kw, t)
             obs.append(r)
             exp = ('(Ok %s)' % crows(r[1], fn == 'budget')) if r[0] == 'ok' else '(Err %s)' % cexn(r[1])
-            ctxt.append('(%s, %s, %s)' % (cbool(fn == 'budget'), copts(snap, ns, kw), exp))
+            ctxt.append('(%s, %s, %s, %s)' % (tsnap[t], cbool(fn == 'budget'), copts(itxt, kw), exp))
+            for name, o in watched:
+                d = dump_ureal(o)
+                if d != base[name]:
+                    changes.append({'after': call_src(fn, {k: v for k, v in kw.items() if k != 'influences_obj'}, t), 'object': name,
+                                    'before': repr(base[name])[:400], 'now': repr(d)[:400]})
+                    base[name] = d          # report each change once
     st, ncx = snap.state()
     tbl = oracle_table(rec.log)
-    return '(let NN := FNum %s in run_calls NN (%s) %s %s 0%%Z %s)' % (tbl, st, ncx, ytxt, clist(ctxt)), obs
+    run = [(t, fn, {k: v for k, v in kw.items() if k != 'influences_obj'}) for t, fn, kw, _ in prepared]
+    return '(let NN := FNum %s in run_tcalls NN (%s) %s 0%%Z %s)' % (tbl, st, ncx, clist(ctxt)), obs, run, changes, len(watched)
 
 def classify(m, ns):
     from GTC import lib
@@ -335,52 +405,60 @@ def correspondence(rng, tier):
     terms = []; meta = []
     dist = {'y_real': 0, 'y_complex': 0, 'partial_complex_use': 0, 'with_intermediates': 0, 'calls_budget': 0, 'calls_components': 0,
             'calls_raising': 0, 'mode_default': 0, 'mode_intermediate': 0, 'mode_influences': 0, 'rows_total': 0, 'key_label': 0,
-            'max_number': 0, 'trim_nonzero': 0, 'gen_failed': 0}
-    distinct = set(); samples = []
+            'max_number': 0, 'trim_nonzero': 0, 'gen_failed': 0, 'sequence_calls_on_parts': 0, 'vector_dumps_compared': 0}
+    distinct = set(); samples = []; mismatches = []
     tries = 0
     while len(terms) < nmodels and tries < nmodels * 3:
         tries += 1
         m = gen_model(rng)
         calls = gen_calls(rng, m, ncalls)
         try:
-            term, obs = case_term(m, calls)
+            term, obs, run, changes, nwatched = case_term(m, calls, rng)
         except Exception as ex:
             dist['gen_failed'] += 1
             continue
-        terms.append(term); meta.append((m, calls, obs))
+        terms.append(term); meta.append((m, run, obs))
+        for ch in changes[:3]:
+            mismatches.append(dict(ch, kind='report-call-changed-component-vectors', python=m['src'],
+                                   sequence=[call_src(fn, kw, t) for t, fn, kw in run]))
+        dist['sequence_calls_on_parts'] += sum(1 for t, _, _ in run if t != 'y')
+        dist['vector_dumps_compared'] += len(run) * nwatched
         dist['y_complex' if '(@YComplex' in term else 'y_real'] += 1
         if m['partial']: dist['partial_complex_use'] += 1
         if m['results']: dist['with_intermediates'] += 1
-        for (fn, kw), r in zip(calls, obs):
+        for (t, fn, kw), r in zip(run, obs):
             dist['calls_' + fn] += 1
             if r[0] == 'exn': dist['calls_raising'] += 1
             else:
                 dist['rows_total'] += len(r[1])
-                if len(r[1]) >= 2: distinct.add((len(terms), call_src(fn, kw)))
+                if len(r[1]) >= 2: distinct.add((len(terms), call_src(fn, kw, t)))
             dist['mode_intermediate' if 'intermediate' in kw else 'mode_influences' if 'influences' in kw else 'mode_default'] += 1
             if kw.get('key') == "'label'": dist['key_label'] += 1
             if 'max_number' in kw: dist['max_number'] += 1
             if kw.get('trim', '0.01') != '0': dist['trim_nonzero'] += 1
         if len(samples) < 3:
-            samples.append({'python': m['src'], 'calls': [call_src(fn, kw) for fn, kw in calls[:4]]})
+            samples.append({'python': m['src'], 'calls': [call_src(fn, kw, t) for t, fn, kw in run[:4] + run[-4:]]})
     values, errors = coq_eval_cases('C17', HEADER, terms, per_file=20)
-    mismatches = []
     for e in errors:
         mismatches.append({'kind': 'coq-file-failed', 'detail': e})
     for i, v in enumerate(values):
         if v is None or v == -1: continue
-        m, calls, obs = meta[i]
+        m, run, obs = meta[i]
         ci = v // 10000; code = v % 10000 - 10
-        fn, kw = calls[ci] if ci < len(calls) else ('?', {})
-        mismatches.append({'kind': 'budget-model-vs-implementation', 'python': m['src'], 'call': call_src(fn, kw),
+        t, fn, kw = run[ci] if ci < len(run) else ('y', '?', {})
+        mismatches.append({'kind': 'budget-model-vs-implementation', 'python': m['src'], 'call': call_src(fn, kw, t),
+                           'sequence_before': [call_src(f2, k2, t2) for t2, f2, k2 in run[:ci]][-6:],
                            'implementation': repr(obs[ci])[:600] if ci < len(obs) else None,
                            'code': code, 'meaning': 'first differing row index (>=1000: lengths differ); -2 one side raised; -3 different exceptions'})
     return {'programs': len(terms), 'steps': sum(len(c) for _, c, _ in meta), 'mismatches': mismatches, 'distinct': len(distinct),
             'distribution': dist, 'samples': samples,
             'rule': 'random models (1-6 declarations of independent/dependent/ensemble reals, independent/correlated/ensemble complex, constants, '
                     'in random creation order; real or complex y; optional partial use z.real/z.imag; 0-3 declared intermediates) x 14 calls of '
-                    'budget/components over the option grid (default/intermediate/influences incl. malformed, trim, max_number, key, reverse); '
-                    'every returned row (label, u by bits, uid) or exception class compared with the FNum model; non-trivial = a call returning >= 2 rows'}
+                    'budget/components over the option grid (default/intermediate/influences incl. malformed, trim, max_number, key, reverse), '
+                    'followed for a complex y by real reports of y.real, y.imag and magnitude(y) (evaluated after the complex reports) and the '
+                    'complex reports again -- one SEQUENCE on the same objects; the model works on snapshots taken before the first call; after '
+                    'every call the value and the three component vectors of y, its parts, magnitude(y) and every declared input/intermediate '
+                    'are dumped bit-exactly and must be unchanged; every returned row (label, u by bits, uid) or exception class compared with the FNum model; non-trivial = a call returning >= 2 rows'}
 
 # ------------------------------------------------------------------ property oracle (search only)
 def u_bar_exact(c):
@@ -389,7 +467,62 @@ def u_bar_exact(c):
 def close(a, b):
     return abs(a - b) <= 1e-12 * max(abs(a), abs(b), 1e-300)
 
+def real_report_rows(t):
+    from GTC import reporting as rp
+    return {fn: [(repr(r.uid), r.u) for r in getattr(rp, fn)(t, trim=0)] for fn in ('budget', 'components')}
+
+def check_real_rows(name, t, rows, leaves):
+    """rows of a complete real report of t: no uid twice, every row is a declared elementary input with u == |u_component(t, x)|
+    (exactly: both read the same vector), every input with a non-zero component is listed"""
+    from GTC import reporting as rp
+    for fn in ('budget', 'components'):
+        uids = [u for u, _ in rows[fn]]
+        dup = sorted(set(u for u in uids if uids.count(u) > 1))
+        if dup: return '%s(%s, trim=0) lists %s more than once' % (fn, name, ', '.join(dup))
+        for uid, u in rows[fn]:
+            if uid not in leaves: return '%s(%s, trim=0) lists %s, which is not a declared elementary input' % (fn, name, uid)
+            c = abs(rp.u_component(t, leaves[uid]))
+            if u != c: return '%s(%s, trim=0): u of %s is %r, |u_component| is %r' % (fn, name, uid, u, c)
+        for uid, x in leaves.items():
+            if rp.u_component(t, x) != 0 and uid not in uids: return '%s(%s, trim=0) misses %s' % (fn, name, uid)
+    return None
+
 def spec_check(m, ns):
+    """the property for one model, INCLUDING report sequences: the complete real reports of y.real, y.imag and magnitude(y)
+    are taken before any complex report of y, the single-report checks (which produce the complex reports) run, and the real
+    reports -- of the same objects and of a freshly evaluated magnitude(y) -- must be the same afterwards"""
+    from GTC import lib, core
+    y = ns['y']
+    seq = []
+    if isinstance(y, lib.UncertainComplex):
+        leaves = {}
+        for v in m['reals'] + m['cplx']:
+            o = ns[v]
+            for x in ((o.real, o.imag) if isinstance(o, lib.UncertainComplex) else (o,)):
+                if getattr(x, 'is_elementary', False): leaves[repr(x.uid)] = x
+        seq = [('y.real', y.real), ('y.imag', y.imag)]
+        try: seq.append(('magnitude(y)', core.magnitude(y)))
+        except Exception: pass
+        before = {}
+        for name, t in seq:
+            before[name] = real_report_rows(t)
+            bad = check_real_rows(name, t, before[name], leaves)
+            if bad: return {'class': [], 'what': bad + ' (before any complex report)'}
+    r = spec_check_single(m, ns)
+    for name, t in seq:
+        after = real_report_rows(t)
+        if after != before[name]:
+            return {'class': [], 'what': 'the real report of %s changed after budget/components of the complex y: before %r, after %r' % (name, before[name], after)}
+        bad = check_real_rows(name, t, after, leaves)
+        if bad: return {'class': [], 'what': bad + ' (after a complex report)'}
+    if seq and seq[-1][0] == 'magnitude(y)':
+        t2 = core.magnitude(y)
+        after = real_report_rows(t2)
+        if after != before['magnitude(y)']:
+            return {'class': [], 'what': 'magnitude(y) evaluated after a complex report of y has another budget: before %r, after %r' % (before['magnitude(y)'], after)}
+    return r
+
+def spec_check_single(m, ns):
     """independent restatement of the property for one model; returns None or a dict describing the failure
     (with a 'class' field used by is_known)"""
     from GTC import reporting as rp, lib, core
@@ -596,6 +729,9 @@ def replay(payload):
         m = dict(f['model']); m['src'] = f['python']
         ns = run_src(m['src'])
         r = spec_check(m, ns)
+        if r and is_known(r):
+            print('replayed on the implementation: passes now (only the known finding %s remains)' % ', '.join(r['class']))
+            return 0
         print('replayed on the implementation:', 'STILL FAILS %r' % (r,) if r else 'passes now')
         return 1 if r else 0
     for b in payload.get('broken', []):
